@@ -1,10 +1,12 @@
 /-
 C03 — control flow and lexical scoping follow the abstract machine.
 
-Property theorems only; helper lemmas are in Lemmas/ScopeLemmas.lean and Lemmas/StmtLemmas*.lean.
+Property theorems only; helper lemmas are in Lemmas/ScopeLemmas.lean and Lemmas/Stmt{Machine,Parse,Labels,Switch,Sim,Preserve,Structured}.lean.
 -/
 import ChibiVerif.Model.Scope
 import ChibiVerif.Lemmas.ScopeLemmas
+import ChibiVerif.Lemmas.StmtPreserve
+import ChibiVerif.Lemmas.StmtStructured
 
 namespace ChibiVerif.Props.C03
 open ChibiVerif.Scope
@@ -72,5 +74,214 @@ theorem C03_scope_hashed (h : String → Nat) (ops : List (Op V T)) (s : Stack V
       ∀ name, cfindVar h cs name = .ok (findVar s name) ∧ cfindTag h cs name = .ok (findTag s name) := by
   obtain ⟨cs, hc, hr⟩ := crun_refines h ops CStack.init Stack.init s (StackRel_init h) hs
   exact ⟨cs, hc, fun name => ⟨cfindVar_refines h name cs s hr, cfindTag_refines h name cs s hr⟩⟩
+
+
+/-! ## Control flow -/
+
+open ChibiVerif.Ctl ChibiVerif.Spec.Ctl
+
+/-- **C03 (break / continue / case / default bind to the innermost construct).**  Whatever the
+    parser context `σ` (the values of `brk_label`, `cont_label`, `current_switch`) in which a
+    statement is parsed: in the resulting tree every `break` jumps to the break label of the
+    innermost enclosing loop **or** switch, every `continue` to the continue label of the
+    innermost enclosing loop (switches are transparent), every switch node's `case_next` list
+    and `default_case` are exactly the `case`/`default` nodes of its own body that are not
+    inside a nested switch (`Bound`); afterwards `brk_label` and `cont_label` have their old
+    values and `current_switch` is the old switch, extended by exactly the `case`/`default`
+    nodes of this statement (`SwFrame`); and the tree is the source statement with labels
+    added (`erase`). -/
+theorem C03_break_binds (s : SStmt) (σ : PState) (st : Stmt) (σ' : PState)
+    (h : parseStmt s σ = .ok (st, σ')) :
+    Bound σ.brk σ.cont st ∧ σ'.brk = σ.brk ∧ σ'.cont = σ.cont ∧ SwFrame σ.sw σ'.sw st ∧ erase st = s := by
+  have A := parse_inv s σ st σ' h
+  exact ⟨A.bound, A.brk, A.cont, A.sw, A.erase⟩
+
+/-- … and for a whole function body (after `resolve_goto_labels`): no enclosing construct. -/
+theorem C03_break_binds_fn (u0 : Nat) (s : SStmt) (st : Stmt) (u1 : Nat) (h : parseFn u0 s = .ok (st, u1)) :
+    Bound none none st ∧ erase st = s := by
+  unfold parseFn at h
+  split at h
+  · cases h
+  · rename_i st0 σ1 hp
+    split at h
+    · cases h
+    · rename_i st' hr
+      simp only [Except.ok.injEq, Prod.mk.injEq] at h
+      obtain ⟨rfl, rfl⟩ := h
+      have A := parse_inv s _ st0 σ1 hp
+      have R := resolve_inv (defs st0) σ1.labels (fun p hp' => by
+        rcases (parse_inv2 s _ st0 σ1 hp).labels p hp' with h | h
+        · simp [PState.init] at h
+        · exact h) st0 st' hr
+      exact ⟨R.bound _ _ A.bound, by rw [R.erase, A.erase]⟩
+
+/-- the hypothesis is satisfiable on a nest with a switch inside a loop inside a switch: the
+    `continue` in the inner switch binds to the loop, the `break`s to their own constructs. -/
+example : (parseFn 0 (.switch_ false false 1 (.block (.seq (.case_ 1 1 (.for_ none (some 2) none
+      (.switch_ true true 3 (.block (.seq (.case_ 5 9 .continue_) (.seq (.default_ .break_) .skip)))))) (.seq .break_ .skip))))).toBool
+    = true := by decide
+
+/-- **C03 (labels).**  In the code of a function (`genStmt (parseStmt f)` followed by
+    `.L.return.f:`), for every value of the two counters (`new_unique_name`'s and `count()`'s)
+    at which the function is reached: all defined labels are pairwise distinct and every jump
+    target (`jmp/je/jne/jbe` operand, `lea` of a label address) is defined — hence defined
+    exactly once — in the same function. -/
+theorem C03_labels (u0 c0 : Nat) (s : SStmt) (st : Stmt) (u1 : Nat) (h : parseFn u0 s = .ok (st, u1)) :
+    (labelsOf (genFn st c0)).Nodup ∧ ∀ t ∈ targetsOf (genFn st c0), t ∈ labelsOf (genFn st c0) := by
+  unfold parseFn at h
+  split at h
+  · cases h
+  · rename_i st0 σ1 hp
+    split at h
+    · cases h
+    · rename_i st' hr
+      simp only [Except.ok.injEq, Prod.mk.injEq] at h
+      obtain ⟨rfl, rfl⟩ := h
+      have A := parse_inv s _ st0 σ1 hp
+      have A2 := parse_inv2 s _ st0 σ1 hp
+      have R := resolve_inv (defs st0) σ1.labels (fun p hp' => by
+        rcases A2.labels p hp' with h | h
+        · simp [PState.init] at h
+        · exact h) st0 st' hr
+      have hn : (defs st').Nodup := by rw [R.defs]; exact A2.nodup
+      have G := gen_labels st' c0 hn
+      have hret : Lbl.ret ∉ labelsOf (genStmt st' c0).1 := by
+        intro hm
+        rcases G.char _ hm with ⟨n, _, e⟩ | ⟨k, _, _, h3⟩
+        · cases e
+        · rcases h3 with h | h | h <;> cases h
+      unfold genFn
+      constructor
+      · rw [labelsOf_append]
+        exact nodup_app G.nodup (by simp) (fun x hx hx' => by
+          simp only [labelsOf_cons, labelsOf_nil, List.append_nil, List.mem_singleton] at hx'
+          subst hx'; exact hret hx)
+      · intro t ht
+        rw [targetsOf_append, List.mem_append] at ht
+        rw [labelsOf_append, List.mem_append]
+        rcases ht with ht | ht
+        · rcases gen_targets (defs st0) st' c0 none none (R.bound _ _ A.bound) R.goto hn t ht with h | ⟨n, rfl, h | h | h⟩ | h
+          · exact Or.inl h
+          · cases h
+          · cases h
+          · exact Or.inl (G.defd n (by rw [R.defs]; exact h))
+          · subst h; exact Or.inr (by simp)
+        · simp at ht
+
+/-- where C says a `switch` on `v` goes: the label of the first `case` in the list whose range
+    contains `v` in the controlling type, else `default`, else past the body -/
+def specSelect (w64 uns : Bool) (v : Val) (cases : List CaseEnt) (dflt : Option Nat) (brk : Nat) : Nat :=
+  match cases.find? (fun e => caseMatches w64 uns e.lo e.hi v) with
+  | some e => e.lbl
+  | none => dflt.getD brk
+
+/-- **C03 (switch selection).**  Let the code contain `call in(k)` followed by the compare
+    ladder `gen_stmt` emits for a case list `cases` (in `case_next` order), an optional
+    `default` and the break label, the controlling expression being 32 or 64 bits wide,
+    signed or unsigned.  If every range is non-empty **in the controlling type**
+    (`toT lo ≤ toT hi`; for a plain `case` `lo = hi`), then for **every** value `v` the oracle
+    supplies the machine arrives — trace and oracle position as after the call, nothing else
+    executed — at the label of the first arm in list order whose range contains `v` in the
+    controlling type (`caseMatches`: negative values, values above 32 bits, the imm32 /
+    register split and the unsigned `sub; cmp; jbe` range test included), else at `default`,
+    else at the break label. -/
+theorem C03_switch_select (ω : Nat → Val) (P : Prog) (p q k : Nat) (σ : SState) (w64 uns : Bool)
+    (cases : List CaseEnt) (dflt : Option Nat) (brk : Nat)
+    (hcode : CodeAt P p ([.call (.inp k)] ++ ladder w64 cases dflt brk))
+    (hord : ∀ e ∈ cases, toT w64 uns e.lo ≤ toT w64 uns e.hi)
+    (htarget : findLabel P (.u (specSelect w64 uns (ω σ.oi) cases dflt brk)) = some q) :
+    Runs ω P (p, σ) (q, (σ.call ω (.inp k)).2) := by
+  apply Runs.switchHead w64 cases dflt brk hcode
+  have : ∀ cs : List CaseEnt, (∀ e ∈ cs, toT w64 uns e.lo ≤ toT w64 uns e.hi) →
+      selectLbl w64 (ω σ.oi) cs dflt brk = specSelect w64 uns (ω σ.oi) cs dflt brk := by
+    intro cs
+    unfold specSelect
+    induction cs with
+    | nil => intro _; cases dflt <;> rfl
+    | cons e r ih =>
+      intro ho
+      simp only [selectLbl, List.find?_cons, entMatches_spec w64 uns e _ (ho e (by simp))]
+      cases hm : caseMatches w64 uns e.lo e.hi (ω σ.oi) with
+      | true => simp
+      | false => simp only [Bool.false_eq_true, if_false]; exact ih (fun e' he' => ho e' (List.mem_cons_of_mem _ he'))
+  show findLabel P (.u (selectLbl w64 (ω σ.oi) cases dflt brk)) = some q
+  rw [this cases hord]; exact htarget
+
+/-- the range hypothesis of `C03_switch_select` on a case list with a negative value, a value
+    above 32 bits and a range up to the top of the type (64-bit signed) -/
+example : ∀ e ∈ ([⟨1, -3#64, -3#64⟩, ⟨2, 0x100000001#64, 0x100000005#64⟩, ⟨3, 7#64, 0x7fffffffffffffff#64⟩] : List CaseEnt),
+    toT true false e.lo ≤ toT true false e.hi := by decide
+
+/-- **C03 (trace preservation, structured fragment).**  For every function body `s` that the
+    parser accepts and that is `structured` (arbitrary nesting of compound statements,
+    if/else, for/while/do with break/continue, `return`, ordinary labels, and switches whose
+    `case`/`default` labels prefix top-level items of the switch body — any order, fall-through,
+    `default` anywhere, ranges non-empty and pairwise disjoint in the controlling type; no
+    goto): for every oracle stream, every fuel and every initial trace, if the abstract machine
+    `Spec.exec` finishes with trace and oracle position `σ'`, then the emitted code, started at
+    its first instruction in any register state, runs to the end of the function with exactly
+    that trace and oracle position — the same calls of `m`, `c`, `in` in the same order the same
+    number of times; if the fuel runs out after `σ'`, the emitted code reaches `σ'` too
+    (prefix). -/
+theorem C03_preserve_partial (ω : Nat → Val) (u0 c0 fuel : Nat) (s : SStmt) (st : Stmt) (u1 : Nat)
+    (σ : SState) (hparse : parseFn u0 s = .ok (st, u1)) (hs : structured s = true) :
+    match exec ω fuel s σ with
+    | .done _ σ' => Runs ω (genFn st c0) (0, σ) ((genFn st c0).length, σ')
+    | .timeout σ' => ∃ q, Runs ω (genFn st c0) (0, σ) (q, σ')
+    | .unsupported => False := by
+  have hB := C03_break_binds_fn u0 s st u1 hparse
+  have hL := C03_labels u0 c0 s st u1 hparse
+  have hu : UniqueLabels (genFn st c0) := unique_of_nodup _ hL.1
+  have hcode : CodeAt (genFn st c0) 0 (genStmt st c0).1 := ⟨[], [.label .ret], by simp [genFn], rfl⟩
+  have hret : (genFn st c0)[(genStmt st c0).1.length]? = some (CIns.label .ret) := by
+    simp [genFn]
+  have hsim := sim_all ω fuel fuel (Nat.le_refl _) st σ (genFn st c0) 0 c0 none none hcode hu hB.1
+    (fun bl h => by cases h) (fun cl h => by cases h) ⟨_, hret⟩
+  rw [hB.2] at hsim
+  have hlen : (genFn st c0).length = (genStmt st c0).1.length + 1 := by simp [genFn]
+  have hfin : ∀ σ', Runs ω (genFn st c0) ((genStmt st c0).1.length, σ') ((genFn st c0).length, σ') := by
+    intro σ'; rw [hlen]; exact Runs.label hret
+  cases hr : exec ω fuel s σ with
+  | unsupported => exact absurd hr (structured_supported ω fuel s σ hs)
+  | timeout σ' => rw [hr] at hsim; exact hsim
+  | done o σ' =>
+    rw [hr] at hsim
+    cases o with
+    | normal => simp only [Nat.zero_add] at hsim; exact hsim.trans (hfin σ')
+    | brk => obtain ⟨bl, _, h, _⟩ := hsim; cases h
+    | cont => obtain ⟨bl, _, h, _⟩ := hsim; cases h
+    | ret =>
+      obtain ⟨q, hq, hrun⟩ := hsim
+      have : q = (genStmt st c0).1.length := hu _ _ _ hq hret
+      subst this
+      exact hrun.trans (hfin σ')
+
+/-- non-vacuity: a structured nest (switch with a range, fall-through and `default` in the
+    middle inside a loop with `continue`) that the parser accepts and the abstract machine
+    runs to completion -/
+def exampleNest : SStmt :=
+  .block (.seq (.for_ (some 1) (some 2) (some 3) (.switch_ false false 4 (.block
+    (.seq (.case_ (-1) 5 (.marker 6)) (.seq (.default_ (.marker 7)) (.seq .continue_ (.seq (.case_ 9 9 .break_) .skip)))))))
+    (.seq (.marker 8) .skip))
+
+example : structured exampleNest = true ∧ (parseFn 0 exampleNest).toBool = true ∧
+    exec (fun i => [1, 3, 1, 9, 1, 77, 0].getD i 0) 50 exampleNest ⟨0, []⟩ =
+      .done .normal ⟨7, [.m 1, .c 2, .inp 4, .m 6, .m 7, .m 3, .c 2, .inp 4, .m 3, .c 2, .inp 4, .m 7, .m 3, .c 2, .m 8]⟩ := by
+  decide
+
+/-- The full statement: the abstract machine extended to *all* statements (goto, computed goto,
+    `case` labels nested in other statements — Duff's device) and preservation for every parsed
+    function.  Not proved: `Spec.exec` gives no meaning to those forms; for them the check
+    relies on `C03_labels` (every jump has exactly one target) plus differential execution
+    against gcc and against the model's own machine. -/
+def C03_preserve_Statement : Prop :=
+  ∃ execG : (Nat → Val) → Nat → SStmt → SState → Res,
+    (∀ ω n s σ, structured s = true → execG ω n s σ = exec ω n s σ) ∧
+    ∀ (ω : Nat → Val) (u0 c0 fuel : Nat) (s : SStmt) (st : Stmt) (u1 : Nat) (σ : SState),
+      parseFn u0 s = .ok (st, u1) →
+      match execG ω fuel s σ with
+      | .done _ σ' => Runs ω (genFn st c0) (0, σ) ((genFn st c0).length, σ')
+      | .timeout σ' => ∃ q, Runs ω (genFn st c0) (0, σ) (q, σ')
+      | .unsupported => False
 
 end ChibiVerif.Props.C03
